@@ -52,18 +52,22 @@ TunKinds == [tg : BOOLEAN, hn : ConfNames]
 (* the code: available = registered, dot-free, not a key of inused; then one pass over the tunnels *)
 Inused(tun) == {tun[i].hn : i \in 1..Len(tun)}
 Available(tun, regSeq) == SelectSeq(regSeq, LAMBDA h : ~IsDotted(h) /\ h \notin Inused(tun))
-RECURSIVE Assign(_, _, _, _, _)
-Assign(tun, i, avail, nreq, acc) ==
-  IF i > Len(tun) THEN [out |-> acc, gen |-> SubSeq(Fresh, 1, nreq)]
+(* fail: the GenerateHostname calls (numbered 1, 2, .. in the order they are made) that the gateway fails; the tunnel then stays
+   without a hostname.  ncall counts the calls, nreq the successful ones (they return Fresh[1], Fresh[2], ..) *)
+RECURSIVE Assign(_, _, _, _, _, _, _)
+Assign(tun, i, avail, nreq, ncall, fail, acc) ==
+  IF i > Len(tun) THEN [out |-> acc, gen |-> SubSeq(Fresh, 1, nreq), nfail |-> ncall - nreq]
   ELSE LET t == tun[i] IN
-       IF ~t.tg \/ t.hn # "" THEN Assign(tun, i + 1, avail, nreq, Append(acc, t.hn))
-       ELSE IF avail # <<>> THEN Assign(tun, i + 1, Tail(avail), nreq, Append(acc, Head(avail)))
-       ELSE Assign(tun, i + 1, avail, nreq + 1, Append(acc, Fresh[nreq + 1]))
-SyncImpl(tun, regSeq) == Assign(tun, 1, Available(tun, regSeq), 0, <<>>)
+       IF ~t.tg \/ t.hn # "" THEN Assign(tun, i + 1, avail, nreq, ncall, fail, Append(acc, t.hn))
+       ELSE IF avail # <<>> THEN Assign(tun, i + 1, Tail(avail), nreq, ncall, fail, Append(acc, Head(avail)))
+       ELSE IF (ncall + 1) \in fail THEN Assign(tun, i + 1, avail, nreq, ncall + 1, fail, Append(acc, ""))
+       ELSE Assign(tun, i + 1, avail, nreq + 1, ncall + 1, fail, Append(acc, Fresh[nreq + 1]))
+SyncImplF(tun, regSeq, fail) == Assign(tun, 1, Available(tun, regSeq), 0, 0, fail, <<>>)
+SyncImpl(tun, regSeq) == SyncImplF(tun, regSeq, {})
 
 (* the statement, over an arbitrary outcome: out[i] = hostname of tunnel i afterwards, gen = the hostnames
    newly requested from the gateway during the sync *)
-SyncDecl(tun, reg, out, gen) ==
+SyncDeclF(tun, reg, out, gen, nfail) ==       \* nfail = failed GenerateHostname calls: that many tunnels may stay without a hostname
   LET N == Len(tun)
       Conf == {tun[i].hn : i \in 1..N} \ {""}
       Asg == {i \in 1..N : tun[i].hn = "" /\ out[i] # ""}        \* hostnames the sync assigned
@@ -72,13 +76,16 @@ SyncDecl(tun, reg, out, gen) ==
       Used == {out[i] : i \in Asg}
   IN [len      |-> Len(out) = N,
       kept     |-> Len(out) = N /\ \A i \in 1..N : tun[i].hn # "" => out[i] = tun[i].hn,
-      has      |-> Len(out) = N /\ \A i \in 1..N : tun[i].tg => out[i] # "",
+      has      |-> Len(out) = N /\ Cardinality({i \in 1..N : tun[i].tg /\ out[i] = ""}) <= nfail,
       distinct |-> Len(out) = N /\ (\A i, j \in Asg : i # j => out[i] # out[j]) /\ (\A i \in Asg : out[i] \notin Conf),
       source   |-> Len(out) = N /\ \A i \in Asg : out[i] \in Avail \cup GenSet,     \* only dot-free registered, unused
-      reuse    |-> Len(out) = N /\ (gen # <<>> => Avail \subseteq Used)]            \* reuse before requesting
+      reuse    |-> Len(out) = N /\ ((gen # <<>> \/ nfail > 0) => Avail \subseteq Used)]   \* reuse before requesting
+SyncDecl(tun, reg, out, gen) == SyncDeclF(tun, reg, out, gen, 0)
 AllTrue(r) == \A k \in DOMAIN r : r[k]
 
-SyncCases == [tun : SeqsUpTo(TunKinds, MaxTun), reg : SubsetsUpTo(RegNames, MaxReg)]
+SyncCases == [tun : SeqsUpTo(TunKinds, MaxTun), reg : SubsetsUpTo(RegNames, MaxReg), fail : {{}}]
+             \cup {x \in [tun : SeqsUpTo(TunKinds, MaxTun), reg : SubsetsUpTo(RegNames, MaxReg), fail : {{1}, {2}, {1, 2}, {1, 3}}] :
+                     SyncImplF(x.tun, SetToSeq(x.reg), x.fail).nfail > 0}      \* only where a failing call is really made
 
 -------------------------------------------------------------------------------
 (* C50  getConnectedNodes.  A case is the sequence of measurement kinds of the connected nodes in address
@@ -167,8 +174,8 @@ Cases == CASE Family = "sync"      -> SyncCases
            [] OTHER -> {}
 
 Expected(x) ==
-  CASE Family = "sync"      -> SyncImpl(x.tun, SetToSeq(x.reg))
-    [] Family = "sync_obs"  -> LET r == SyncObs[x] IN SyncDecl(r.c.tun, Range(r.c.reg), r.o.out, r.o.gen)
+  CASE Family = "sync"      -> SyncImplF(x.tun, SetToSeq(x.reg), x.fail)
+    [] Family = "sync_obs"  -> LET r == SyncObs[x] IN SyncDeclF(r.c.tun, Range(r.c.reg), r.o.out, r.o.gen, r.o.nfail)
     [] Family = "nodes"     -> NodesImpl(x)
     [] Family = "nodes_obs" -> LET r == NodesObs[x] IN NodesDecl(r.c, r.o)
     [] Family = "save_obs"  -> SaveClasses(SaveObs[x])
@@ -182,7 +189,7 @@ Spec == TabInit /\ [][TabNext]_vars
    registered hostnames may be reported: the statement does not depend on it) *)
 ImplMeetsDecl ==
   done \/        \* (evaluated once per case, on the initial state)
-  CASE Family = "sync"  -> LET r == SyncImpl(c.tun, SetToSeq(c.reg)) IN AllTrue(SyncDecl(c.tun, c.reg, r.out, r.gen))
+  CASE Family = "sync"  -> LET r == SyncImplF(c.tun, SetToSeq(c.reg), c.fail) IN AllTrue(SyncDeclF(c.tun, c.reg, r.out, r.gen, r.nfail))
     [] Family = "nodes" -> AllTrue(NodesDecl(c, NodesImpl(c)))
     [] OTHER -> TRUE
 
